@@ -133,8 +133,7 @@ def iterRange (src : List ITxn) (start stop : Option Nat) : List ITxn :=
 /-! ### `FileStorage.restore` -/
 
 inductive Err where
-  | undoError      -- `_txn_find`: "Invalid transaction id"
-  | typeError      -- `_data_find`: `len(None)`
+  | typeError      -- `_data_find`: `len(None)` (a pickle is found where the source had none)
 deriving Repr, DecidableEq
 
 /-- index (from 0) of the LAST occurrence of `oid` in a list of oids -/
@@ -180,13 +179,14 @@ def dataFind (t : Txn) (lvl oid : Nat) (data : Option Bytes) : Except Err (Optio
           else if d' = d then .ok (some (lvl, i)) else .ok none
       | _ => .ok (some (lvl, i))
 
-/-- the back pointer `restore` derives from the `prev_txn` hint -/
+/-- the back pointer `restore` derives from the `prev_txn` hint; the hint is ignored when the
+    destination has no such transaction (`UndoError` of `_txn_find` caught — the repaired code) -/
 def prevPos (D : Store) (r : IRec) : Except Err (Option (Nat × Nat)) :=
   match r.dataTxn with
   | none => .ok none
   | some h =>
     match txnFind D h with
-    | none => .error .undoError
+    | none => .ok none
     | some (t, older) => dataFind t older.length r.oid r.data
 
 /-- `restore(oid, serial, data, '', prev_txn, txn)` against the committed transactions `D`:
